@@ -13,7 +13,10 @@ RULE = ('failing evaluations only: a random target (short, long (lists of 40+ it
         'reprs) and a spec tree of depth <= 3 (quick) / 4 (thorough) over linear nestings (dict/list/T/Spec/wrappers), '
         'chains (tuple, Pipe), branches (Coalesce, Or, Switch, And with default, Match with default, Not) and their '
         'nestings (branches inside chains inside branches), in which one failure of each kind (missing key, bad index, '
-        'raising callable, type mismatch, MatchError, all-branches-fail) is planted at a random position; every '
+        'raising callable, type mismatch, MatchError, all-branches-fail) is planted at a random position; in 10% of the '
+        'cases the spec raises its own error after its last sub-evaluation returned normally with a caught failure '
+        'below it (Not(Not(x)), Invoke(raising).specs(Not(x)), Match dict with a missing key after Not values, over '
+        'Not / Coalesce-with-default / Or / tuple, inside a chain, a dict value or a Coalesce branch); every '
         'scope[glom] call is recorded through scope={glom.glom: tracer} (parent scope identity, NO_PYFRAME flag, bbrepr '
         'of spec and target, len(), target identity, outcome); each recorded evaluation is rendered at 5 widths (50, 60, '
         '80, 110, 200) by calling format_target_spec_trace on the real scope; in 12% of the cases the same target object '
@@ -42,14 +45,18 @@ MANIFEST = dict(
           "that really raised is among its branches and the theorem applies to it again; c05_branches - a row's "
           "branches are its frame's CHILD_ERRORS (heads of the chain segments in which a step raised; the "
           "sub-evaluations that raised when none is chained) unless that is the single last child; "
-          "c05_last_row_partial + c05_last_row_counterexample - 'the last row is the call that raised' holds when no "
-          "other error was raised, not in general (glom({}, Not(Not('x'))): rows continue below the failing call). "
+          "c05_rows_show_errors + c05_last_row - every row after the first shows an error and the last row is a "
+          "call that raised, showing its own outcome (the repaired _unpack_stack, glom effa985, stops at a last "
+          "child that returned normally; rows below the call that raised the root error occur only as its single "
+          "caught failed branch shown linearly); c05_last_row_counterexample - the loop before that repair listed a "
+          "call that returned normally below the failing spec (glom({}, Not(Not('x')))). "
           "Every recorded real evaluation is checked to be the event list of such a tree (treeOf/events round trip, "
           "chainOk, onePath) - a case outside the theorems' domain is a disagreement. Local theorems (Props/C05): "
           "the unpacked stack descends through LAST_CHILD_SCOPE pointers, entering a call makes it the last child, "
           "a chained step forgives earlier branches, push-down and trimming keep the rows and the root, truncation "
           "is prefix-preserving and fits the width. The property on the TEXT (begins with the root target, lists "
-          "the failing path in order, shows the failing spec's target, shows every failed branch with its error) is "
+          "the failing path in order, shows the failing spec's target, shows every failed branch with its error, lists "
+          "nothing that returned normally below the failing spec) is "
           "a Lean predicate checkC05 evaluated on the real trace text and on the model's text for every recorded "
           "evaluation; the model must reproduce the real text character for character."),
     note=("partial: the lift from the rows to the rendered text (checkC05 of the model's text) is validated per case, "
